@@ -18,7 +18,7 @@ from ..symx import Ctx
 
 PROP = 'C12'
 NAMES = ['a', 'b1']
-FIXED = ['n', "it's"]
+FIXED = ['n', "it's", '']
 TYPES = ['T']
 FLAGS = ['', 'm', 'p', 'mp']
 
